@@ -1097,8 +1097,19 @@ pub(crate) mod v_socket_tcp {
         let mut rxs = [0u8; RX];
         let mut txs = [0u8; TX];
         let mut s = fresh(&mut rxs[..], &mut txs[..]);
+        // history before the active open: the socket may have been a listener that was closed again
+        // (seed s56: a listen endpoint that survives close()/connect() turns the active socket into a
+        // "passive" one for the SYN-RECEIVED + RST edge)
+        let was_listener: bool = kani::any();
+        if was_listener {
+            s.listen(LPORT).unwrap();
+            crate::vassert!(s.state == State::Listen, "prop:c17_listen_from_closed");
+            s.close();
+            crate::vassert!(s.state == State::Closed, "prop:c17_close_of_listener");
+        }
         s.connect(cx, (IpAddress::Ipv4(REMOTE), RPORT), LPORT).unwrap();
         crate::vassert!(s.state == State::SynSent, "prop:c17_connect_from_closed");
+        crate::vassert!(s.listen_endpoint == IpListenEndpoint::default(), "prop:c17_active_open_is_not_a_listener");
         // every ISS value
         let iss = TcpSeqNumber(kani::any());
         s.local_seq_no = iss;
@@ -1133,6 +1144,8 @@ pub(crate) mod v_socket_tcp {
             State::SynReceived => {
                 crate::vassert!(sb.control == TcpControl::Syn && sb.ack.is_none(), "prop:c17_simultaneous_open_only_by_bare_syn");
                 crate::vassert!(deadline_finite(&mut s, cx), "prop:c02_pending_data_has_finite_deadline");
+                // RFC 9293 3.10.7.4: only a connection that came from LISTEN returns there on a RST
+                crate::vassert!(s.listen_endpoint.port == 0, "prop:c17_active_open_is_not_a_listener");
             }
             State::Closed => {
                 crate::vassert!(sb.control == TcpControl::Rst && acks_iss, "prop:c17_handshake_reset_only_by_exact_rst_ack");
